@@ -11,6 +11,7 @@ SPDX-License-Identifier: Apache-2.0
 package dochandler
 
 import (
+	"encoding/json"
 	"fmt"
 	"strings"
 
@@ -20,6 +21,7 @@ import (
 	"github.com/trustbloc/sidetree-go/pkg/document"
 	"github.com/trustbloc/sidetree-go/pkg/docutil"
 	"github.com/trustbloc/sidetree-go/pkg/encoder"
+	"github.com/trustbloc/sidetree-go/pkg/versions/1_0/model"
 
 	"github.com/trustbloc/sidetree-go/pkg/vdr/sidetreelongform/dochandler/protocol/nsprovider"
 	"github.com/trustbloc/sidetree-go/pkg/vdr/sidetreelongform/dochandler/protocol/verprovider"
@@ -104,7 +106,16 @@ func (r *DocumentHandler) ProcessOperation(operationBuffer []byte) (*document.Re
 		return nil, fmt.Errorf("%s: operation type [%s] not supported", badRequest, op.Type)
 	}
 
-	jcsBytes, err := canonicalizer.MarshalCanonical(operationBuffer)
+	// the initial state is the canonical form of the create request as the parser reads it back,
+	// so that the returned DID resolves whatever else the caller's JSON carried
+	var createRequest model.CreateRequest
+
+	err = json.Unmarshal(operationBuffer, &createRequest)
+	if err != nil {
+		return nil, fmt.Errorf("%s: %s", badRequest, err.Error())
+	}
+
+	jcsBytes, err := canonicalizer.MarshalCanonical(createRequest)
 	if err != nil {
 		return nil, fmt.Errorf("%s: %s", badRequest, err.Error())
 	}
